@@ -299,7 +299,7 @@ def correspondence(ctx):
     ok = False
     if res is not None:
         nm = res["names"]
-        ok = all(x["name"] == f"symbol__tmp{x['tmp'] - 1}" for x in nm) and nm[0]["name"] != nm[1]["name"]
+        ok = all(x["name"] == f"symbol__tmp{x['tmp']}" for x in nm) and nm[0]["name"] != nm[1]["name"]
         ctx.notes["noninterference_needs_guard_replay"] = nm
         ctx.traces_validated += 1
     ctx.obligation("witness:noninterference_needs_guard replayed on the real code (Context.default_like.ref leaks the process-global counter)", ok, kind="correspondence")
